@@ -147,6 +147,9 @@ func Load(o LoadOpts) (*Program, error) {
 		prog, _ := ssautil.AllPackages(good, ssa.InstantiateGenerics)
 		prog.Build()
 		canonicalise(prog)
+		if InlineView {
+			inlineHelpers(prog)
+		}
 		p.SSA = prog
 	}
 	return p, nil
